@@ -15,7 +15,7 @@
 #define PA_CAP 64
 #endif
 #ifndef PA_TAB
-#define PA_TAB 32        /* objects are numbered in allocation order; a harness with more objects raises the ENVBOUND assertion */
+#define PA_TAB 1024        /* objects are numbered in allocation order; a harness with more objects raises the ENVBOUND assertion */
 #endif
 size_t pa_lsize[PA_TAB]; unsigned char pa_managed[PA_TAB]; int pa_over; unsigned pa_nrealloc;
 size_t pa_size_of(const void *p) { return pa_lsize[__CPROVER_POINTER_OBJECT(p) % PA_TAB]; }
